@@ -26,7 +26,16 @@ void   verif_out_str(const char *name, const char *s);
 void   verif_note(const char *text);
 void   verif_stop(void);
 void   verif_log_accesses(int on);
+const char *verif_token_int(const char *name, long lo, long hi);   // text of a symbolic integer (in-band token) to be spliced into configuration / state text
+const char *verif_token_double(const char *name);                 // same for a symbolic real
 double verif_logged_value(const char *marker, int *found); // number printed right after 'marker' in the latest log message containing it
+int    verif_fs_exists(const char *name);                // file-system model of the interpreter (native: the real file system)
+long   verif_fs_size(const char *name);
+void   verif_fs_put(const char *name, const char *data, long n);
+void   verif_fs_truncate(const char *name, long n);
+void   verif_fs_fail(const char *op, int times);         // make the next calls of "rename" / "open" fail
+void   verif_fs_trace_begin(void);
+int    verif_fs_crash_consistent(const char *name, const char *backup);  // number of crash points of the recorded trace without a complete state
 long   verif_param(const char *name, long dflt);       // tier-dependent bound chosen by the check driver (recorded in the evidence)
 void   verif_need_module(void);                        // native runs: make sure a Colvars module + stub proxy exist (cvm::error needs them); interpreter: no-op, cvm::error is modelled
 }
